@@ -1,7 +1,7 @@
 # C04: incremental reads guided by the missing-byte count reassemble the stream.
 import json
 
-from harness import common, framegen, sweep
+from harness import common, framegen, rt, sweep
 from harness.c03 import FRAMING_UNITS
 
 LEVEL = 'proof'
@@ -67,7 +67,7 @@ def reader_failures(impl, cls, frames, chunks):
         return 'reader emitted %d of %d records, %d bytes left over' % (len(out), len(frames), len(buf))
     for o, f in zip(out, frames):
         try:
-            if bytes(o.compose()) != f and cls.parse_exact_size(f) != o:
+            if bytes(o.compose()) != f and not rt.same(cls.parse_exact_size(f), o):
                 return 'reader emitted a different record'
         except Exception:  # pylint: disable=broad-except
             pass
@@ -81,10 +81,11 @@ def unit_frames(rng):
         name = sweep.qualname(cls)
         if name in FRAMING_UNITS:
             good = []
-            for v in vs:
+            from harness import c03
+            for v in list(vs) + [r for v0 in vs for r in c03.reframed(name, v0, rng)]:    # and the other wire forms of the same frames
                 try:
                     o, n = cls.parse_immutable(v)
-                    if n == len(v):
+                    if n == len(v) or c03.declared_length(name, v) == len(v):
                         good.append(v)
                 except Exception:  # pylint: disable=broad-except
                     pass
